@@ -6,6 +6,7 @@ import (
 	"fmt"
 	"go/types"
 	"os"
+	"path/filepath"
 	"regexp"
 	"sort"
 	"strings"
@@ -47,6 +48,10 @@ type OblReport struct {
 	Cover  bool              `json:"cover,omitempty"`
 	Fn     string            `json:"fn"`
 	Params []ParamReport     `json:"params,omitempty"`
+	ReplaySrc   string       `json:"replay_src,omitempty"`
+	ReplayDir   string       `json:"replay_dir,omitempty"`
+	ReplayNotes []string     `json:"replay_notes,omitempty"`
+	Results     []ResultTerm `json:"result_terms,omitempty"`
 }
 
 type ParamReport struct {
@@ -186,6 +191,17 @@ func main() {
 			}
 			for _, m := range r.O.Model {
 				or.Params = append(or.Params, ParamReport{m.Name, types.TypeString(m.Type, nil), m.Term})
+			}
+			or.Results = r.O.Results
+			if r.Status == "sat" && r.O.ssaFn != nil && !r.O.IsCover {
+				src, notes, ok := ReplayTest(r.O.ssaFn, r.O, r.Model)
+				or.ReplayNotes = notes
+				if ok {
+					or.ReplaySrc = src
+					if f := r.O.ssaFn.Prog.Fset.File(r.O.ssaFn.Pos()); f != nil {
+						or.ReplayDir = filepath.Dir(f.Name())
+					}
+				}
 			}
 		}
 		rep.Obligations = append(rep.Obligations, or)
